@@ -275,9 +275,9 @@ TankAtLimit(s, r, n) ==
   LET nd == NodeRec(s, n) IN
   nd.type = "T" /\ (Leq(Level(r, nd), Add(N(nd.minl), Sci(1, -3))) \/ Geq(Level(r, nd), Sub(N(nd.maxl), Sci(1, -3))))
 \* what may hold a link closed against a command to open: its own check valve, a pump's shut-off rule, an adjacent
-\* tank at a level limit, or being cut off from every source
+\* tank at a level limit (the exceptions the property names; isolation is not one of them)
 HeldClosed(s, r, l, reach) == (l.type = "pipe" /\ l.cv) \/ l.type \in {"headpump", "powerpump"}
-                              \/ TankAtLimit(s, r, l.a) \/ TankAtLimit(s, r, l.b) \/ IsolatedLink(s, reach, l)
+                              \/ TankAtLimit(s, r, l.a) \/ TankAtLimit(s, r, l.b)
 Obeyed(s, r, c, reach) ==
   LET l == LinkRec(s, c.link) IN
   IF c.what = "setting" THEN Close(N(r.setting[c.link]), N(c.val), Sci(1, -9), TolF)
@@ -302,7 +302,8 @@ NoOvershoot(s, p, r) ==
      \* only a control whose action actually changes its link forces a step (firing without effect needs none)
      /\ (IF c.what = "setting" THEN ~Close(N(p.setting[c.link]), N(c.val), Sci(1, -9), TolF)
          ELSE IF c.val = 0 THEN p.status[c.link] # Closed
-         ELSE p.status[c.link] = Closed /\ r.status[c.link] # Closed)      \* held closed by an internal rule: no visible effect
+         \* a link that its check valve, shut-off rule or a tank at a limit held closed opens by that mechanism, not by the control
+         ELSE p.status[c.link] = Closed /\ r.status[c.link] # Closed /\ ~HeldClosed(s, p, LinkRec(s, c.link), {}))
      /\ ~Leq(Mul(Abs(Sub(Level(r, nd), N(c.thr))), TankArea(nd)),
              Add(Mul(FromInt(2), MaxD(Abs(N(p.dem[c.node])), Abs(N(r.dem[c.node])))), Sci(1, -5)))}
 =============================================================================
